@@ -223,6 +223,8 @@ def run_cfg(chk, facts, cfg):
         coincide('%s:quantile:lower=two(2L-1)%s' % (PID, sfx), 'quantile', res['lower'], two2, 'hi')
     except (Unsupported, NotReal) as e:
         chk.ob('%s:quantile%s' % (PID, sfx), 'E3', 'quantile', None, 'undecided: %s' % e, 'quantile::Stats::ci')
+    from ..effects import obligation as no_hidden_state
+    no_hidden_state(chk, PID, facts, sfx, 'every producer is a pure function of its inputs (kind and level cannot leak between calls)')
     chk.analysed['paths'] += pr.npaths
     chk.analysed['functions'] |= pr.fns
     chk.analysed['configs'].add(cfg)
